@@ -881,6 +881,134 @@ def main(replay=None):
         except V.BuildError as e:
             run.notes.append("tsan flavour did not build: " + str(e)[-200:])
 
+    # ------------------------------------------------------------- family K: the instances of the C API, one inside the call of another
+    # Everything above drives instances assembled from the runtime's classes; the exported functions of src/export/sqfvm.cpp (an anchor
+    # of this property) have state and decisions of their own.  Here the instances are those of sqfvm_create_instance[_basic|_empty] and
+    # a result is what sqfvm_call / sqfvm_load_config / sqfvm_status return plus every record delivered to the callback.  Histories
+    # (checks/c20_api.py): every API call of a pool that ends in each documented way and delivers records in each phase (preprocessing,
+    # parsing, executing, the RESULT record, config loading) x every script of another instance x every record position: the other
+    # instance is used one after the other, from inside the callback on the same thread, on a thread started and joined there, created
+    # and destroyed there, with its script split around the call; three instances on two levels.  Oracle (property text, implementation
+    # only): the transcript of each instance equals the one its own ops give in a process where no other instance exists.
+    import c20_api as KA
+    kstats = {"histories": 0, "by shape": {}, "histories in which another instance was entered inside a call": 0, "groups executed inside a callback": 0,
+              "phase of the call in progress when the other instance was entered": {}, "distinct projections run alone": 0,
+              "dropped: alone-transcript not reproducible": 0}
+    hk = V.build_harness("h_c20api", "plain")
+
+    def krun(lines):
+        rc_, out_, err_ = V.run_lines_parallel([hk, "hist"], lines, timeout=3000)
+        return [re.sub(r"0x[0-9a-fA-F]+", "0xADDR", x) for x in out_]
+    casesK = []      # (shape, ops)
+    if replay:
+        r = json.load(open(replay))["replay"]
+        if r.get("family") == "K":
+            casesK = [(r["shape"], r["history"])]
+    else:
+        cdir = os.path.join(V.VERIF, "corpus", PID)
+        if os.path.isdir(cdir):
+            for fn in sorted(os.listdir(cdir)):
+                r = json.load(open(os.path.join(cdir, fn)))
+                if r.get("family") == "K":
+                    KA.validate(r["history"])
+                    casesK.append((r["shape"], r["history"]))
+        disc = KA.discovery_lines()
+        dout = krun([l for _, l in disc])
+        counts, rets = {}, set()
+        for (key, _), o in zip(disc, dout):
+            po = KA.parse_out(o)
+            if po and "I0" in po[0]:
+                res = KA.results_of(po[0]["I0"])
+                if len(res) == 2:
+                    counts[key] = len(res[1][1])
+                    rets.add(res[1][0])
+        kstats["API calls of the pool (operator set x call)"] = len(disc)
+        kstats["of these deliver records (another instance can be entered there)"] = sum(1 for v in counts.values() if v)
+        kstats["return values seen in the pool"] = sorted(rets)
+        casesK += KA.histories(rng, counts, thorough)
+    projK = [KA.projection(ops) for _, ops in casesK]
+    alone_lines = sorted({KA.line_of(p[i]) for p in projK for i in p})
+    a1 = krun(alone_lines)
+    a2 = krun(alone_lines[::-1])[::-1]
+    aloneK = {l: (x if x == y else None) for l, x, y in zip(alone_lines, a1, a2)}
+    kstats["distinct projections run alone"] = len(alone_lines)
+    implK = krun([KA.line_of(ops) for _, ops in casesK])
+    expK = [{i: aloneK[KA.line_of(proj[i])] for i in proj} for proj in projK]
+    usableK = [all(v is not None for v in e.values()) for e in expK]
+    verdictK = [KA.mismatch(got, proj, e) if u else "unusable" for got, proj, e, u in zip(implK, projK, expK, usableK)]
+    # whatever looks wrong is run once more, in a process of its own: only what shows again the same way is reported
+    suspects = [n for n, v in enumerate(verdictK) if v is not None and v != "unusable"]
+    kstats["looked wrong once and not again (not reported)"] = 0
+    if suspects and not os.environ.get("VERIF_NO_CONFIRM"):
+        again = krun([KA.line_of(casesK[n][1]) for n in suspects])
+        for n, g2 in zip(suspects, again):
+            if g2 != implK[n]:
+                kstats["looked wrong once and not again (not reported)"] += 1
+                run.notes.append("family K: a history gave two different outputs in two runs and is not judged: " + KA.serialize(casesK[n][1])[:200])
+                verdictK[n] = "unusable"
+    seenK = {}
+    for (shape, ops), proj, got, exp, bad in zip(casesK, projK, implK, expK, verdictK):
+        if bad == "unusable":
+            kstats["dropped: alone-transcript not reproducible"] += 1
+            continue
+        kstats["histories"] += 1
+        kstats["by shape"][shape] = kstats["by shape"].get(shape, 0) + 1
+        evaluations += 1
+        armed = KA.groups_of(ops)
+        rep = {"family": "K", "shape": shape, "history": ops, "harness_line": KA.line_of(ops), "impl": got,
+               "alone": {"I%d" % i: {"harness_line": KA.line_of(proj[i]), "impl": exp[i]} for i in proj},
+               "oracle": "transcript of every instance = transcript of its own ops in a process without any other instance (implementation against implementation)",
+               "how_to_read": "h_c20api hist: C create (f full / b basic / e empty), K sqfvm_call <calldata>:<type>:<text>, L sqfvm_load_config, S sqfvm_status, D destroy; "
+                              "{k s ...} = ops issued from the log callback at record k of that op on the same thread, {k t ...} = on a thread started and joined there"}
+        if bad == ("crash",):
+            if ("crash", shape) not in seenK and seenK.get("n", 0) < 6:
+                seenK[("crash", shape)] = 1
+                seenK["n"] = seenK.get("n", 0) + 1
+                run.violation("API calls on several instances of one process (%s) crash or hang the host: %s; every instance alone answers normally" % (shape, got[:60]), rep)
+            continue
+        d, done, _ = KA.parse_out(got)
+        if armed:
+            kstats["histories in which another instance was entered inside a call"] += 1 if done else 0
+            kstats["groups executed inside a callback"] += done
+            if done == armed:
+                distinct.add(("K", KA.serialize(ops)))
+        # coverage: where the call in progress was when the other instance was entered (first level)
+        for o in ops:
+            for g_ in o.get("nest", []):
+                alone_res = KA.results_of(KA.parse_out(exp[o["i"]])[0].get("I%d" % o["i"], ""))
+                idx = [j for j, fo in enumerate(proj[o["i"]]) if fo == {k_: v_ for k_, v_ in o.items() if k_ != "nest"}]
+                if idx and idx[0] < len(alone_res) and g_["k"] < len(alone_res[idx[0]][1]):
+                    ph = KA.phase_of(o, alone_res[idx[0]][1][g_["k"]])
+                    kstats["phase of the call in progress when the other instance was entered"][ph] = kstats["phase of the call in progress when the other instance was entered"].get(ph, 0) + 1
+        if bad is None:
+            continue
+        i, at, w_, h_ = bad
+        # was that op issued while another instance was inside a call, and how
+        def find(ops_, depth, how):
+            for o in ops_:
+                if o["i"] == i:
+                    yield depth, how
+                for g_ in o.get("nest", []):
+                    yield from find(g_["ops"], depth + 1, "a thread started in the log callback" if g_["thread"] else "the log callback (same thread)")
+        places = list(find(ops, 0, "the top level"))
+        inside = [p for p in places[at:at + 1] if p[0] > 0]
+        where = ("issued from %s of instance(s) in the middle of a call of their own" % inside[0][1]) if inside else "while the other instance(s) made their calls before / after / around it"
+        key = (shape, inside[0][1] if inside else "top", w_[0][:1], h_[0])
+        if key in seenK or seenK.get("n", 0) >= 6:
+            continue
+        seenK[key] = 1
+        seenK["n"] = seenK.get("n", 0) + 1
+        if i < 0:
+            run.violation("records are delivered with a user_data that belongs to no instance of the history (%s): %s" % (shape, ", ".join(h_[1][:2])[:300]), dict(rep, instance="?"))
+        else:
+            fo = proj[i][at] if at < len(proj[i]) else {}
+            run.violation("C API, %s: instance %d answers its op number %d (%s) with %s and %d record(s); the same ops on that instance in a process of its own give %s and %d record(s). "
+                          "The op was %s: what another instance does decides the result of this one"
+                          % (shape, i, at + 1, (KA.ser_op(fo)[:1] + " " + repr(fo.get("text", ""))[:80]) if fo else "?", h_[0], len(h_[1]), w_[0], len(w_[1]), where),
+                          dict(rep, instance=i, op_number=at + 1, expected_result=[w_[0]] + w_[1][:6], observed_result=[h_[0]] + h_[1][:6]))
+    run.cov["api_histories"] = kstats
+    dist["K histories of API calls on 2-3 instances (one inside the call of another)"] = len(casesK)
+
     # ------------------------------------------------------------- the statics themselves, by name
     expected = set(re.findall(r'^\s*\("((?:[^"]|"")*)",\s*(?:Mode|Registry|Scratch|Constant)\)', open(os.path.join(V.COQ, "API", "IsoDefs.v")).read(), re.M))
     found_st = set(st["where"])
@@ -925,11 +1053,19 @@ def main(replay=None):
                        "family R (re-entrancy, one thread): candidates = the registry-wide operand sweep of checks/C09.py (one case per signature) plus string-building operators with "
                        "out-of-range / missing arguments, each run alone; those that return a value and emit a non-error diagnostic before it are paired (same operator with "
                        "other operands, another operator): instance B runs Q inside the log callback of instance A at A's k-th diagnostic of P; A's record must equal P alone, "
-                       "B's record Q alone; the concurrent case of family A is demanded only where the footprints cannot meet (partial)")
+                       "B's record Q alone; the concurrent case of family A is demanded only where the footprints cannot meet (partial); "
+                       "family K (instances of the C API, implementation-only metamorphic oracle from the property text - the Coq model has no C API): histories of sqfvm_create_instance"
+                       "[_basic|_empty] / sqfvm_call (types s, a, p, 1, invalid) / sqfvm_load_config / sqfvm_status / sqfvm_destroy_instance on 2-3 instances in one process; pool = calls that end "
+                       "in every documented way (0, -2, -3, -5, -6) and deliver records while preprocessing, parsing, executing, as RESULT record, while loading a config (discovered on this "
+                       "run); every call of the pool x every script of another instance (single calls, and scripts whose later calls read globals / config / defines / scripts their earlier "
+                       "calls left in that instance) x record positions: the other instance is used one after the other, from inside the log callback on the same thread, on a thread started "
+                       "and joined there, created and destroyed there, with its script split before / inside / after the call or over two records; three instances on two levels; never an op "
+                       "on an instance that is itself inside a call; the transcript of every instance (return values, every record with its call_data and severity, records attributed by "
+                       "user_data) must equal the transcript of its own ops run in a process where no other instance exists (each such projection run twice, in two processes)")
     run.cov["input_distribution"] = dist
     run.cov["samples"] = samples
     run.cov["statics"] = sorted(st["where"])
-    run.cov["trusted_base"] = ["Coq 8.16.1 kernel", "ExtrOcamlBasic extraction + ocaml/api_driver.ml", "harness/h_api.cpp (several VMs and threads in one process)",
+    run.cov["trusted_base"] = ["Coq 8.16.1 kernel", "ExtrOcamlBasic extraction + ocaml/api_driver.ml", "harness/h_api.cpp (several VMs and threads in one process)", "harness/h_c20api.cpp (histories of C API calls, nested through the log callback)",
                                "translators/statics.py: nm on the objects; the classification of each static (Mode / Registry / Scratch / Constant) in API/IsoDefs.v is read off the source, not proved",
                                "programs of vmcommon.Gen are taken to touch no process state (they use no toFixed / __COUNTER__)"]
     confirm_concurrent(run, replay)
